@@ -89,6 +89,33 @@ func callableEnum() {
 			}
 		}
 	}
+	// boundary of reflect.FuncOf's capacity (128 values): long variadic argument lists, and functions
+	// with 128 / 129 results, every target variant
+	for _, total := range []int{127, 128, 129, 130, 300} {
+		for _, fi := range []int{2, 3} {
+			var args []any
+			if fi == 3 {
+				args = append(args, "s")
+			}
+			for len(args) < total {
+				args = append(args, len(args))
+			}
+			for tv := 0; tv < callableTargetVariants; tv++ {
+				n++
+				if msg := callableCase(funcs[fi], fi, rec, args, tv); msg != "" {
+					report("%s", msg)
+				}
+			}
+		}
+	}
+	for bi, fn := range []any{callableBig128, callableBig129} {
+		for tv := 0; tv < callableTargetVariants; tv++ {
+			n++
+			if msg := callableCase(fn, 100+bi, &cRec{}, nil, tv); msg != "" {
+				report("%s", msg)
+			}
+		}
+	}
 	vrt.AddEvaluations(n)
 	vrt.Log("enumerated", n, bad)
 }
@@ -99,7 +126,8 @@ func callableCase(fn any, fi int, rec *cRec, args []any, tv int) (msg string) {
 	desc := func() string {
 		return fmt.Sprintf("f%d %v args=%s targets=%s", fi, ft, callableShow(args), callableTargetName(tv))
 	}
-	rec.calls, rec.args = 0, nil
+	rec.calls, rec.args, callableBigCalls = 0, nil, 0
+	untracked := fi >= 100 // the boundary functions count their calls in callableBigCalls and take no arguments
 	targets, opt, resOK := callableTargets(ft, tv)
 	argsOK := callableArgsAccepted(ft, args)
 	var err error
@@ -115,7 +143,13 @@ func callableCase(fn any, fi int, rec *cRec, args []any, tv int) (msg string) {
 	if panicked != nil {
 		return fmt.Sprintf("panic: %s: %v", desc(), panicked)
 	}
-	if argsOK && resOK {
+	if untracked {
+		rec.calls = callableBigCalls
+	}
+	// More than 128 values cannot be passed through reflect.FuncOf: a descriptive refusal (without
+	// calling and without touching the targets) is then as acceptable as a correct call.
+	overCapacity := len(args) > 128 || ft.NumOut() > 128
+	if argsOK && resOK && !(overCapacity && err != nil) {
 		if err != nil {
 			return fmt.Sprintf("rejected-valid: %s: %v", desc(), err)
 		}
@@ -123,7 +157,7 @@ func callableCase(fn any, fi int, rec *cRec, args []any, tv int) (msg string) {
 			return fmt.Sprintf("not-called-once: %s: called %d times", desc(), rec.calls)
 		}
 		want := callableDirect(fn, args)
-		if m := callableCompareArgs(ft, args, rec.args); m != "" {
+		if m := callableCompareArgs(ft, args, rec.args); m != "" && !untracked {
 			return fmt.Sprintf("wrong-arguments: %s: %s", desc(), m)
 		}
 		if m := targets.check(want); m != "" {
